@@ -1771,7 +1771,7 @@ class Element(Mapping[str, Attribute]):
                         file.write(bin_data)
                 elif attr.type is ValueType.ELEMENT:
                     for subelem in attr.iter_elem():
-                        if subelem is NULL:  # It's a singleton.
+                        if subelem.is_null:
                             file.write(pack('<i', -1))
                         elif subelem.is_stub:
                             # Stubs are identified by their UUID, in string form.
